@@ -27,6 +27,13 @@ def obligations(tier, sc):
     if not ok:
         raise RuntimeError("OVNI_MAX_EV_BUF is used in a way the re-scaling argument does not cover: %r" % uses)
     obs = step_obligations(1, tier, [0, 1, 2, 3, 4])
+    # isolation of concurrent threads (what lets the per-thread obligations above speak about every thread of a
+    # process): C11's thread-modular obligations for the calls that touch the stream, re-run under this property.
+    # They include the planted check that no function-scope object with static storage duration is used.
+    for ob in _c11.obligations(tier, sc):
+        if ob.name in ("tm_ev_emit", "tm_flush", "tm_thread_free", "tm_thread_free_tmpdir"):
+            ob.name = "isolation_" + ob.name
+            obs.append(ob)
     if os.environ.get("C01_NO_F1", "1") == "1":
         return obs
     caps = [64] if tier == "quick" else [64, 96]
